@@ -67,6 +67,26 @@ Definition bind {A B} (d : dec A) (f : A -> dec B) : dec B := fun s =>
   | (Err e, s1, t1) => (Err e, s1, t1)
   end.
 
+(* boolean equalities (for the correspondence and for examples evaluated by vm_compute) *)
+Definition err_eqb (a b : err) : bool :=
+  match a, b with
+  | EShort, EShort | ELimit, ELimit | ENul, ENul | EBadLen, EBadLen | EMsgType, EMsgType
+  | EEmpty, EEmpty | EFuel, EFuel => true
+  | _, _ => false
+  end.
+Definition ev_eqb (a b : ev) : bool :=
+  match a, b with Rd x, Rd y => x =? y | Al x, Al y => x =? y | _, _ => false end.
+Fixpoint trace_eqb (a b : list ev) : bool :=
+  match a, b with
+  | [], [] => true
+  | x :: a', y :: b' => ev_eqb x y && trace_eqb a' b'
+  | _, _ => false
+  end.
+Definition res_eqb {A} (eqb : A -> A -> bool) (a b : res A) : bool :=
+  match a, b with Ok x, Ok y => eqb x y | Err x, Err y => err_eqb x y | _, _ => false end.
+Definition out_eqb {A} (eqb : A -> A -> bool) (a b : out A) : bool :=
+  res_eqb eqb (o_res a) (o_res b) && bytes_eqb (o_rest a) (o_rest b) && trace_eqb (o_trace a) (o_trace b).
+
 (* trace of one buffer: a zero-size make allocates nothing and io.ReadFull on it issues no Read *)
 Definition rd (n : N) : list ev := if n =? 0 then [] else [Rd n].
 Definition al (n : N) : list ev := if n =? 0 then [] else [Al n].
